@@ -20,6 +20,9 @@ CONSTANTS
   SubLates = {}
   AttLates = {}
   MaxHeld = 2
+  MaxPasses = 1
+  MaxHeads = 1
+  HoldKinds = {"refresh"}
   Fams = {}
 INVARIANTS PendingExact
 CONSTRAINT HWM
